@@ -62,6 +62,10 @@ _EH = C('EH', [P('c', ['union', REF('Col'), REF('Shade')]),
                P('s', ['union', REF('US'), REF('US2'), 'int'], ['int', 0]),
                P('o', OPT(REF('Col')), ['none']),
                P('t', ['union', REF('US'), 'str'], ['str', 'q'])])
+_EA = C('EA', [P('k', REF('Col')), P('u', REF('US')),
+               P('c', ['union', REF('Col'), REF('Shade')], ['enum', 'Col', 'red']),
+               P('s', ['union', REF('US'), REF('US2'), 'int'], ['int', 0]),
+               P('t', ['union', REF('US'), 'str'], ['str', 'q'])])
 # ambiguity two levels below the expected class: Root <- Mid <- {LeafC, LeafD}
 _RT = C('Root', [P('a', 'int')])
 _MD = C('Mid', [P('a', 'int')], ['Root'])
@@ -87,6 +91,8 @@ MODELS = {
     'DP': {'classes': [_RT, _MD, _LC, _LD, _OT], 'doc_type': REF('Root')},
     'EU': {'classes': [_COL, _SHD, _US, _US2, _EH],
            'doc_type': ['union', REF('EH'), REF('Col'), REF('Shade'), ['list', REF('Shade')]]},
+    'EV': {'classes': [_COL, _SHD, _US, _US2, _EA],
+           'doc_type': ['union', REF('EA'), ['list', ['union', REF('EA'), REF('Shade')]]]},
     'SV': {'classes': [_SB, _SD, _SE], 'doc_type': REF('SBase')},
     'DI': {'classes': [_TL, _PN, _BR, _MK], 'doc_type': REF('Tool')},
     'DK': {'classes': [_US, _YS, _DK], 'doc_type': REF('DK')},
@@ -119,7 +125,7 @@ KEYS = {
     'L': ['x', 'a', 'b'], 'DM': ['k', 'j'], 'DU': ['k', 'j'], 'AB': ['a', 'b'],
     'SH': ['center', 'radius', 'width', 'x'], 'UN': ['a', 'b', 'c'],
     'WD': ['n', 'when', 'where', 'zz'], 'BF': ['k'],
-    'AR': ['a', 'b', 'c'], 'UI': ['a', 'b'], 'SL': ['k'], 'SM': ['k', 'true'], 'EU': ['c', 's', 'o', 't'], 'DP': ['a', 'b', 'c', 'd'], 'DK': ['m', 'y', 'k'], 'PR': ['a', '_id', 'b'], 'DI': ['a', 'b', 'c', 'd'], 'SV': ['line', 'col', 'w'],
+    'AR': ['a', 'b', 'c'], 'UI': ['a', 'b'], 'SL': ['k'], 'SM': ['k', 'true'], 'EU': ['c', 's', 'o', 't'], 'EV': ['k', 'u', 'c', 's', 't'], 'DP': ['a', 'b', 'c', 'd'], 'DK': ['m', 'y', 'k'], 'PR': ['a', '_id', 'b'], 'DI': ['a', 'b', 'c', 'd'], 'SV': ['line', 'col', 'w'],
 }
 SCALS = ['1', 'x', 'true', '1.5', '~', 'red', '"1"']
 SCALS_BY = {'SV': ['1', '7', 'x', '~'], 'WD': ['1', 'seven', '2001-01-01', '~', 'a/b', '1.5'],
